@@ -29,6 +29,7 @@ theorem outOf_pending (r : Reply) (p : Nat) (h0 : r.pend = 0) (h : p ≠ 0 → r
     cases fin with
     | pos => rfl
     | silent => exact absurd rfl h1
+    | illegal sw => rfl
     | nrc n =>
       have : n ≠ NRC_BUSY := fun hn => h2 (by rw [hn])
       simp [this]
@@ -41,6 +42,11 @@ theorem linkOf_withPending (O : Oracle σ) (pend : σ → Wire → Nat) (h0 : No
   funext s i w
   simp only
   rw [outOf_pending _ _ (h0 s i w) (h s i w)]
+
+theorem moves_false_of (a : Ans) (h1 : a = .pos → False) (h2 : a = .illegal true → False) : a.moves = false := by
+  cases a with
+  | illegal sw => cases sw <;> simp_all [Ans.moves]
+  | _ => simp_all [Ans.moves]
 
 /-! ### security-locked transitions -/
 
@@ -56,21 +62,26 @@ theorem lockedOracle_graphLike (c : CfgS) (E : Ecu) (locked : Sess → Sess → 
     subst he
     simp only [linkOf, lockedOracle, lockedGraph]
     by_cases hl : locked p u = true
-    · simp [hl]
+    · simp [hl, Ans.moves]
     · simp only [hl, false_and, if_false]
-      cases hg : E.g p u <;> simp
+      cases hg : E.g p u with
+      | illegal sw => cases sw <;> simp [Ans.moves]
+      | _ => simp [Ans.moves]
   reset := by
     intro e i l he
     obtain ⟨p, ul⟩ := e
     simp only at he
     subst he
     simp only [linkOf, lockedOracle, lockedGraph]
-    cases hr : E.rst p with
-    | pos =>
-      refine ⟨by simp, fun h => absurd rfl h, fun _ => ?_⟩
-      simp [Booting, outOf]
-    | silent => simp
-    | nrc n => simp
+    split
+    · rename_i hr
+      refine ⟨by simp [hr], fun h => absurd hr h, fun _ => ?_⟩
+      simp [Booting, outOf, Ans.refused]
+    · rename_i hr
+      simp [hr, Ans.moves]
+    · rename_i h1 h2
+      refine ⟨rfl, fun _ => ⟨rfl, ?_⟩, fun h => absurd h h1⟩
+      simp [moves_false_of _ h1 h2]
 
 /-! ### the graph ECU as a stateful oracle (base ECU class: never armed) -/
 
@@ -80,7 +91,7 @@ theorem graphOracle_booting (c : Cfg) (E : Ecu) (n : Nat) :
   induction n with
   | zero =>
     refine ⟨rfl, fun _ => ?_⟩
-    simp [linkOf, graphOracle, outOf]
+    simp [linkOf, graphOracle, outOf, Ans.refused]
   | succ n ih =>
     refine ⟨rfl, fun _ => ⟨?_, ?_⟩⟩
     · simp [linkOf, graphOracle, outOf]
@@ -98,7 +109,11 @@ theorem graphOracle_graphLike (c : CfgS) (E : Ecu) (hb : c.preHook = [] ∧ c.po
     simp only at h1 h2
     subst h1 h2
     simp only [linkOf, graphOracle, Bool.false_and, Bool.false_eq_true, if_false]
-    split <;> simp_all
+    split
+    · simp_all [Ans.moves]
+    · simp_all [Ans.moves]
+    · rename_i h1 h2
+      simp [moves_false_of _ h1 h2]
   reset := by
     intro e i l he
     obtain ⟨p, ar, af, bo⟩ := e
@@ -106,11 +121,14 @@ theorem graphOracle_graphLike (c : CfgS) (E : Ecu) (hb : c.preHook = [] ∧ c.po
     simp only at h1 h2
     subst h1 h2
     simp only [linkOf, graphOracle]
-    cases hr : E.rst p with
-    | pos =>
-      refine ⟨by simp, fun h => absurd rfl h, fun _ => ?_⟩
+    split
+    · rename_i hr
+      refine ⟨by simp [hr], fun h => absurd hr h, fun _ => ?_⟩
       exact graphOracle_booting c.toCfg E (E.boot p)
-    | silent => simp
-    | nrc n => simp
+    · rename_i hr
+      simp [hr, Ans.moves]
+    · rename_i h1 h2
+      refine ⟨rfl, fun _ => ⟨⟨rfl, rfl⟩, ?_⟩, fun h => absurd h h1⟩
+      simp [moves_false_of _ h1 h2]
 
 end Gallia.SessionScan
